@@ -117,6 +117,10 @@ type World struct {
 	gwLn  *pipeListener
 	gwSrv *http.Server
 
+	// CtlGate / AdmitGate hold back the watch streams of the controller's and
+	// of the admission plugin's informer (fault watch_delay).
+	CtlGate, AdmitGate *Gate
+
 	mu       sync.Mutex
 	Clusters map[string]*ClusterStub // by cluster name as written
 	Stubs    map[string]*Stub        // by addr
@@ -188,13 +192,14 @@ func NewWorld(r *sim.Run, opts Options) *World {
 	}
 
 	w.Fake = gatewayfake.NewSimpleClientset()
-	w.informer = gatewayinformers.NewSharedInformerFactory(w.Fake, 12*time.Hour)
+	w.CtlGate, w.AdmitGate = NewGate(), NewGate()
+	w.informer = gatewayinformers.NewSharedInformerFactory(&gatedClient{w.Fake, w.CtlGate}, 12*time.Hour)
 	w.Ctl = controllers.NewUpstreamClusterController(w.informer.Proxy().V1alpha1().UpstreamClusters(), &proxyoptions.RateLimiterOptions{RateLimiter: "local"})
 	w.informer.Start(w.stopCh)
 	go w.Ctl.Run(w.stopCh)
 
 	// the real admission plugin in front of the store, with its own lister
-	w.admitInf = gatewayinformers.NewSharedInformerFactory(w.Fake, 12*time.Hour)
+	w.admitInf = gatewayinformers.NewSharedInformerFactory(&gatedClient{w.Fake, w.AdmitGate}, 12*time.Hour)
 	pl := upstreamclusteradmission.NewUpstreamClusterPlugin()
 	pl.(interface {
 		SetGatewayResourceInformerFactory(gatewayinformers.SharedInformerFactory)
@@ -552,3 +557,36 @@ func BaseCluster(name string, endpoints []string) *proxyv1alpha1.UpstreamCluster
 }
 
 var _ = features.DenyAllRequests
+
+// Twin builds a second, freshly started controller (informer, manager, cluster
+// infos, probes) in the same bubble from the given objects only. It shares the
+// stub upstreams with the world.
+func (w *World) Twin(objs []*proxyv1alpha1.UpstreamCluster) *controllers.UpstreamClusterController {
+	var ro []runtime.Object
+	for _, o := range objs {
+		ro = append(ro, o.DeepCopy())
+	}
+	fake := gatewayfake.NewSimpleClientset(ro...)
+	inf := gatewayinformers.NewSharedInformerFactory(fake, 12*time.Hour)
+	ctl := controllers.NewUpstreamClusterController(inf.Proxy().V1alpha1().UpstreamClusters(), &proxyoptions.RateLimiterOptions{RateLimiter: "local"})
+	inf.Start(w.stopCh)
+	go ctl.Run(w.stopCh)
+	w.Sc.Settle()
+	time.Sleep(500 * time.Millisecond)
+	w.Quiesce()
+	return ctl
+}
+
+// LatestObjects returns the latest stored objects sorted by name.
+func (w *World) LatestObjects() []*proxyv1alpha1.UpstreamCluster {
+	var names []string
+	for n := range w.objs {
+		names = append(names, n)
+	}
+	sort.Strings(names)
+	var out []*proxyv1alpha1.UpstreamCluster
+	for _, n := range names {
+		out = append(out, w.objs[n])
+	}
+	return out
+}
